@@ -124,13 +124,27 @@ func c0102Child(mode string) mon.ChildFunc {
 						})
 					} else {
 						rr = realParse(func() (interface{}, error) {
-							if ii%4 == 3 {
+							if ii%12 == 11 {
 								// tracing is an observer: the result must be the same with it switched on
 								return gp.byK[k].ParseString("", text, participle.AllowTrailing(trailing), participle.Trace(io.Discard))
 							}
+							switch ii % 12 {
+							case 2, 3:
+								// the other entry points take the same parse options (C15 compares them pairwise;
+								// here each is judged against the reference on its own)
+								return gp.byK[k].ParseBytes("", []byte(text), participle.AllowTrailing(trailing))
+							case 6, 7:
+								return gp.byK[k].Parse("", strings.NewReader(text), participle.AllowTrailing(trailing))
+							}
 							return gp.byK[k].ParseString("", text, participle.AllowTrailing(trailing))
 						})
-						if ii%4 == 3 {
+						switch ii % 12 {
+						case 2, 3:
+							c.Feature("via_ParseBytes")
+						case 6, 7:
+							c.Feature("via_Parse_reader")
+						}
+						if ii%12 == 11 {
 							c.Feature("parses_with_Trace_switched_on")
 						}
 					}
